@@ -224,7 +224,16 @@ C07_Clause(c, aux, o) ==
         goodLogon1 == flagIn /\ Clean(m) /\ m.app = "ok" /\ m.seq = 1 /\ pre.st = "logon" /\ post.st \in LoggedOnSt
     IN
     CASE c = "onlyAgreedResets" ->   \* nothing but a configured option or a negotiated flag resets the store
-            (NoResetConfigured(o.cfg) /\ ~flagIn /\ ~flagOut /\ ~flagGen) => post.ep = pre.ep
+            \* (the start of a new window of a configured session schedule is a configured reset)
+            (NoResetConfigured(o.cfg) /\ ~flagIn /\ ~flagOut /\ ~flagGen /\ ~(o.cfg.schedule /\ o.ev.k = "TimeTick")) => post.ep = pre.ep
+      [] c = "scheduleRollover" ->   \* a tick inside the window of the store's creation changes nothing; a tick in a later
+                                     \* window starts a new session: both counters 1, nothing stored
+            /\ (o.cfg.schedule /\ o.ev.k = "TimeTick" /\ o.ev.e = "same") =>
+                    (post.ep = pre.ep /\ post.nIn = pre.nIn /\ post.nOut = pre.nOut /\ Wire(o) = <<>>)
+            /\ (o.cfg.schedule /\ o.ev.k = "TimeTick" /\ o.ev.e = "next" /\ pre.inbuf = 0) =>
+                    (post.nIn = 1 /\ post.nOut = 1 /\ DOMAIN post.sent = {} /\ ~post.conn)
+            /\ (o.cfg.schedule /\ o.ev.k = "TimeTick" /\ o.ev.e = "out" /\ pre.inbuf = 0 /\ NoResetConfigured(o.cfg)) =>
+                    (post.ep = pre.ep /\ post.st = "notSessionTime" /\ ~post.conn)
       [] c = "continuity" ->         \* disconnecting and reconnecting leave counters and stored messages alone
             /\ (NoResetConfigured(o.cfg) /\ o.ev.k = "Disconnected" /\ pre.inbuf = 0) =>
                     (post.nIn = pre.nIn /\ post.nOut = pre.nOut /\ post.sent = pre.sent)
@@ -273,7 +282,7 @@ C07_Clause(c, aux, o) ==
                       post.nIn = m.newseq
 
 C07_Names == {"onlyAgreedResets", "continuity", "resetLogonSent", "resetLogonReceived", "echoDoesNotResetAgain", "resetFlagHonoured",
-              "resetAtTime", "echoOfTimedReset",
+              "resetAtTime", "echoOfTimedReset", "scheduleRollover",
               "resetOnLogout", "resetOnDisconnect", "seqResetForwardOnly"}
 C07_Fails(aux, o) == {c \in C07_Names : ~C07_Clause(c, aux, o)}
 C07_Step(aux, o) == C07_Fails(aux, o) = {}
